@@ -421,7 +421,7 @@ class Generator:
     if name in ('quat', 'refquat', 'bindquat', 'relpose') and n >= 4:
       base = ['1', '0', '0', '0', '0', '0', '0'] if name != 'relpose' else ['0', '0', '0', '1', '0', '0', '0']
       if rng.random() < 0.6:
-        return base[idx]
+        return base[idx % len(base)]
       return rng.choice(['0.5', '1', '-0.5', '0.7'])
     if name in ('axis', 'zaxis', 'dir') and n == 3:
       return ['0', '0', '1'][idx] if rng.random() < 0.6 else rng.choice(['1', '0.5', '-1', '0.3'])
